@@ -19,6 +19,11 @@ add("C10", "fault_enumeration",
     "Trusted: the hook placement (points sit between file-system calls of lib/file and Transaction.Commit), SIGKILL as the crash model (no torn write(2), no power loss), new contents taken from an uninterrupted run.",
     "fault injection at enumerated crash points over generated transactions (rapid) with an old-or-new byte oracle", "DESIGN.md §3 C10")
 
+add("C11", "fault_enumeration",
+    "Generated programs (read-only and data-changing) are run as real csvq processes under every kind of ending: success, a failing statement at a drawn position, EXIT/EXIT n, lock timeout against held .lock/.rlock/.temp files, and SIGINT/SIGTERM/SIGQUIT self-delivered at every verification point the run passes (loading, lock acquisition, statement boundaries, every step of commit and release). After exit the directory must hold no control files, no uncommitted created table, no empty --out file, and for read-only programs identical bytes, inode and mtime of every file.",
+    "Trusted: hook placement; a signal 'at a point' is delivered by the process to itself followed by a 15 ms settle so the runtime's signal goroutine has cancelled the context; competing holders are represented by their control files.",
+    "fault injection (signals/errors/timeouts at enumerated points) over generated programs (rapid) with a directory invariant", "DESIGN.md §3 C11")
+
 NOT_YET = {}
 
 def main():
